@@ -744,6 +744,12 @@ func c18R4(c *Ctx) {
 					guarded = true
 				}
 			}
+			if !guarded {
+				// the test itself instead of the call: lowerBound < index+offset < upperBound is known on the path
+				lo, up := preInt("lowerBound"), preInt("upperBound")
+				t := idx.add(e.lc.num(fn.Params[1]), 1)
+				guarded = e.lc.nonNeg(lcGE(up.add(t, -1), 1)) && e.lc.nonNeg(lcGE(t.add(lo, -1), 1))
+			}
 			okLookup := false
 			if lk, ok := e.lc.at(ret.Results[0]).(*ssa.Lookup); ok {
 				if f, ok := sliceOfRecvField(fn, lk.X); ok && f == "feed" {
